@@ -100,6 +100,9 @@ def link_violations(db):
 def job(seed):
     rng = random.Random(seed)
     spec = SP.normalise_for_spelling(GD.gen_spec(rng, wild=False, max_tables=4), RT.ref_norm)
+    namesake = rng.random() < 0.25 and GD.add_namesake_case(rng, spec)
+    if namesake:
+        spec = SP.normalise_for_spelling(spec, RT.ref_norm)
     if not SP.spellable(spec):
         return None
     text, exp, info = SP.spell(spec, rng, {'varied': True})
@@ -107,7 +110,8 @@ def job(seed):
         db = PyDBML(text, allow_properties=spec['allow_properties'])
     except Exception as e:  # noqa: BLE001
         return {'text': text, 'props': spec['allow_properties'], 'err': O.classify(e)}
-    out = {'text': text, 'props': spec['allow_properties'], 'viol': link_violations(db), 'features': GD.features(spec)}
+    out = {'text': text, 'props': spec['allow_properties'], 'viol': link_violations(db),
+           'features': GD.features(spec) + (['namesake-in-other-schema'] if namesake else [])}
     try:
         d = O.dump_db(db)
         out['dump_ok'] = True
